@@ -371,6 +371,47 @@ pub fn gen_c05(r: &mut Rng, id: usize, thorough: bool) -> Group {
     if thorough && id < fixed + c05_exhaustive_size() {
         return gen_c05_exhaustive(id - fixed);
     }
+    if r.chance(3) {
+        // MORE carets than there are enclosing inputs, at every nesting depth of every function that evaluates an argument once
+        // per element (and of the pipe): the documented fall-back is the current input, never a failure
+        let carets = "^".repeat(r.range(1, 7));
+        let path = r.ps(&["", ".", ".a", ".l", "#0", ".zz.q"]);
+        let leaf = format!("{carets}{path}");
+        let wrap = |r: &mut Rng, body: String| -> String {
+            match r.below(14) {
+                0 => format!("(map .l {body})"),
+                1 => format!("(filter .l (= {body} .))"),
+                2 => format!("(flat_map .l (push [] {body}))"),
+                3 => format!("(sort_by .l {body})"),
+                4 => format!("(group_by .l (stringify {body}))"),
+                5 => format!("(fold .l 0 (push [] .so_far {body}))"),
+                6 => format!("(| .l {body})"),
+                7 => format!("(| . .l {body} (push [] . {body}))"),
+                8 => format!("(map_values .o {body})"),
+                9 => format!("(filter_keys .o (= {body} .))"),
+                10 => format!("(sort_by_values_by .o {body})"),
+                11 => format!("(map_keys .o (stringify {body}))"),
+                12 => format!("(map . {body})"),
+                _ => format!("(all (map .l (= {body} {body})))"),
+            }
+        };
+        let mut e = leaf;
+        for _ in 0..r.range(1, 3) {
+            e = wrap(r, e);
+        }
+        let mut c = case(format!("C05-{id}"));
+        match r.below(5) {
+            0 => c.spec.filter = Some(format!("(= {e} {e})")),
+            1 => { c.spec.split = Some(".l".into()); c.spec.selects.push(format!("{e}=x")); }
+            2 => c.spec.sorts.push(e.clone()),
+            3 => { c.spec.sets.push(format!("@m={e}")); c.spec.selects.push("@m=x".into()); }
+            _ => c.spec.selects.push(format!("{e}=x")),
+        }
+        c.sources.push(stdin_src(b"{\"a\": 1, \"l\": [[1, 2], {\"a\": 5, \"l\": [7]}, 3], \"o\": {\"p\": [4], \"q\": {\"a\": 2}}}\n[[1, 2], [3]]\n7\n".to_vec()));
+        let mut g = Group::new(vec![c]);
+        g.labels.push("kind:excess-carets".into());
+        return g;
+    }
     if r.chance(5) {
         // \uXXXX escapes of every class and every pair of classes (high surrogate, low surrogate, BMP, bad hex, cut short), as
         // strings, member names and through `parse`
@@ -548,7 +589,61 @@ pub fn garbage_token_c06(r: &mut Rng) -> Vec<u8> {
     garbage_token(r)
 }
 
+/// one gap holding a LONG malformed region (tens of thousands of white-space delimited garbage tokens), run on a thread with a
+/// small stack (see `cmd_worker`): whatever a reader does per malformed byte — a report it builds, a frame it pushes, a buffer
+/// it grows — must stay bounded.  Only the policies that do not print one line per byte: ignore (same rows as the clean
+/// stream, silent, success) and panic.  (The model needs time quadratic in the length of such a region — `Reader.nextJson`
+/// measures the rest of the input for its fuel on every call —, hence tens of KiB and a small stack, not megabytes.)
+fn gen_c06_huge_gap(r: &mut Rng, id: usize) -> Group {
+    let total = r.range(40_000, 70_000);
+    let mut noise: Vec<u8> = Vec::with_capacity(total + 16);
+    let single = if r.chance(40) { Some(garbage_token_c06(r)) } else { None };
+    let glued = r.chance(30);
+    while noise.len() < total {
+        match &single {
+            Some(t) => noise.extend_from_slice(t),
+            None => noise.extend_from_slice(&garbage_token_c06(r)),
+        }
+        if !glued || r.chance(1) {
+            noise.push(*r.pick(b" \n"));
+        }
+    }
+    noise.push(b'\n');
+    let before = r.range(0, 2);
+    let after = r.range(1, 3);
+    let o = GenOpts::default();
+    let vals: Vec<V> = (0..before + after).map(|_| value::gen_value(r, &o, 1)).collect();
+    let mut clean: Vec<u8> = vec![];
+    let mut noisy: Vec<u8> = vec![];
+    for (i, v) in vals.iter().enumerate() {
+        if i == before {
+            noisy.extend_from_slice(&noise);
+        }
+        let t = value::render(v);
+        clean.extend_from_slice(t.as_bytes());
+        clean.push(b'\n');
+        noisy.extend_from_slice(t.as_bytes());
+        noisy.push(b'\n');
+    }
+    let mut cases = vec![];
+    for (pol, which, bytes) in [("ignore", "noisy", &noisy), ("ignore", "clean", &clean), ("panic", "noisy", &noisy)] {
+        let mut c = case(format!("C06-{id}-smallstack-{pol}-{which}"));
+        c.spec.on_error = Some(pol.to_string());
+        c.sources.push(stdin_src(bytes.clone()));
+        cases.push(c);
+    }
+    let mut g = Group::new(cases);
+    g.values = vals;
+    g.tag = format!("huge-gap before={before}");
+    g.nontrivial = true;
+    g.labels.push("kind:huge-malformed-region".into());
+    g
+}
+
 pub fn gen_c06(r: &mut Rng, id: usize) -> Group {
+    if r.below(70) == 0 {
+        return gen_c06_huge_gap(r, id);
+    }
     let o = GenOpts::default();
     let n = r.range(1, 8);
     let vals: Vec<V> = (0..n).map(|_| value::gen_value(r, &o, 1)).collect();
@@ -1073,6 +1168,27 @@ pub fn gen_c11(r: &mut Rng, id: usize) -> Group {
         }).collect()
     };
     let (a, b) = if bigrows { let na = r.range(1, 6); let nb = r.range(1, 6); (big_rows(r, na), big_rows(r, nb)) } else { (a, b) };
+    // streams of tens of KiB made almost entirely of LONG digit runs (integers of 15..20 digits, long fractions, exponents):
+    // whatever block size the reader uses, digit runs straddle its block boundaries, at other offsets in A.B than in B alone
+    let longnums = !special && !long && !bigrows && r.chance(3);
+    let num_rows = |r: &mut Rng, bytes: usize| -> Vec<V> {
+        let mut out = vec![];
+        let mut size = 0usize;
+        while size < bytes {
+            let v = match r.below(6) {
+                0 => V::Int((r.next() >> r.below(8) as u32) as i128),
+                1 => V::Int(-((r.next() >> (1 + r.below(8) as u32)) as i128)),
+                2 => value::norm_float((r.next() >> 11) as f64 / 9007199254740992.0),
+                3 => value::norm_float(((r.next() >> 11) as f64 / 9007199254740992.0) * 1e-200),
+                4 => V::Arr((0..r.below(3)).map(|_| V::Int((r.next() >> 2) as i128)).collect()),
+                _ => V::Int((r.next() % 10_000_000_000_000_000_000u64) as i128),
+            };
+            size += value::render(&v).len() + 1;
+            out.push(v);
+        }
+        out
+    };
+    let (a, b) = if longnums { let na = r.range(5_000, 20_000); let nb = r.range(200, 12_000); (num_rows(r, na), num_rows(r, nb)) } else { (a, b) };
     // records that SHARE their parts (the same list, the same subject string) but differ in what the expressions read from the
     // enclosing record: a value computed for a part of one record must not be reused for the equal part of another
     let ctxdep = !special && !long && !bigrows && r.chance(14);
@@ -1151,6 +1267,15 @@ pub fn gen_c11(r: &mut Rng, id: usize) -> Group {
             }
         }
         s
+    } else if longnums {
+        let mut s = Spec::default();
+        match r.below(4) {
+            0 => {}
+            1 => { s.selects.push(".=value".into()); s.selects.push("(number? .)=is_number".into()); }
+            2 => { s.style = Some("text".into()); s.selects.push(".=v".into()); }
+            _ => { s.filter = Some("(number? .)".into()); }
+        }
+        s
     } else if special {
         let mut s = Spec::default();
         match r.below(3) {
@@ -1223,6 +1348,9 @@ pub fn gen_c11(r: &mut Rng, id: usize) -> Group {
     }
     if twins {
         g.labels.push("kind:equal-neighbours".into());
+    }
+    if longnums {
+        g.labels.push("kind:long-digit-runs".into());
     }
     g
 }
@@ -1401,7 +1529,15 @@ pub fn gen_c13_cache(r: &mut Rng, id: usize) -> Group {
 
 /// C13, separators after bindings: `:var` and `@macro` arguments followed by a comma instead of a blank
 pub fn gen_c13_bindings(r: &mut Rng, id: usize) -> Group {
-    let (canon, respelled) = match r.below(6) {
+    let (canon, respelled) = match r.below(13) {
+        // the sugar `:name` / `@name` against the call form, under the canonical name and under its alias, with literal arguments
+        6 => ("(+ :n .a)", "(+ (: \"n\") .a)"),
+        7 => ("(+ :n .a)", "(+ (get_variable \"n\") .a)"),
+        8 => ("(push [] :n :s .a)", "(push [] (get_variable \"n\"), (: \"s\") .a)"),
+        9 => ("(| .a @inc @inc)", "(| .a (@ \"inc\") @inc)"),
+        10 => ("(set \"q\" .a (+ :q :n))", "(set \"q\" .a (+ (get_variable \"q\") (get_variable \"n\")))"),
+        11 => ("(define \"d\" (+ . :n) (| .a @d))", "(macro \"d\" (+ . (get_variable \"n\")) (| .a (@ \"d\")))"),
+        12 => ("(map .l (+ :n .))", "(map .l (+ (get_variable \"n\") .))"),
         0 => ("(+ :n .a)", "(+ :n, .a)"),
         1 => ("(+ :n .a)", "(+ :n,.a)"),
         2 => ("(| .a @inc @inc)", "(| .a, @inc, @inc)"),
@@ -1409,7 +1545,7 @@ pub fn gen_c13_bindings(r: &mut Rng, id: usize) -> Group {
         4 => ("(map .l (+ :n .))", "(map .l, (+ :n, .))"),
         _ => ("(? (= :n 5) @inc :s)", "(? (= :n, 5), @inc, :s)"),
     };
-    let pos = r.below(3);
+    let pos = r.below(5);
     let mk = |name: &str, e: &str| {
         let mut c = case(format!("C13-{id}-{name}"));
         c.spec.sets.push("n=5".into());
@@ -1418,7 +1554,9 @@ pub fn gen_c13_bindings(r: &mut Rng, id: usize) -> Group {
         match pos {
             0 => c.spec.selects.push(format!("{e}=x")),
             1 => c.spec.filter = Some(format!("(= {e} {e})")),
-            _ => c.spec.sorts.push(e.to_string()),
+            2 => c.spec.sorts.push(e.to_string()),
+            3 => { c.spec.sets.push(format!("@body={e}")); c.spec.selects.push("@body=x".into()); }
+            _ => c.spec.group = Some(Some(format!("(stringify {e})"))),
         }
         c.spec.utf8 = true;
         c.sources.push(stdin_src(b"{\"a\":1,\"l\":[1,2]}\n{\"a\":-2,\"l\":[]}\n{\"l\":[7]}".to_vec()));
@@ -1768,6 +1906,7 @@ pub fn gen_c14(r: &mut Rng, id: usize) -> Group {
 pub fn gen_c15(r: &mut Rng, id: usize) -> Group {
     let n_sel = r.range(1, 5);
     let names = ["c0", "c1", "c2", "c3", "c4"];
+    let mut twin_universe = false;
     let pool: Vec<V> = {
         let mut p = vec![V::Null, V::Bool(true), V::Bool(false), V::Int(0), V::Int(-12), V::Int((1 << 64) - 1), V::Float(0.5), V::Float(1e-7), V::Float(1e21)];
         for s in ["", "plain", "q\"uote", "com,ma", "line\nbreak", "cr\rlf\r\n", "tab\t", "é日本", "\"", "\"\"", ", ", " lead", "a\"b,c\nd", "null", "True"] {
@@ -1790,9 +1929,21 @@ pub fn gen_c15(r: &mut Rng, id: usize) -> Group {
         }
         p.push(V::Float(*r.pick(&value::interesting_floats())));
         p.push(V::Obj(vec![("a\"b".into(), V::Arr(vec![V::Null, V::Str("x\ny".into())])), ("é".into(), V::Float(2.5))]));
+        if r.chance(15) {
+            // a small universe of nested values that are EQUAL (`=`: member order ignored, an integer against the double of the same
+            // magnitude) without being the same text, so that neighbouring fields and neighbouring rows often are such twins: every
+            // field is the text of ITS value
+            let ab = V::Obj(vec![("a".into(), V::Int(1)), ("b".into(), V::Int(2))]);
+            let deep = V::Obj(vec![("x".into(), V::Arr(vec![ab.clone(), V::Str("q\"".into())])), ("y".into(), ab.clone())]);
+            p = vec![ab.clone(), perm_twin(&ab), V::Arr(vec![ab.clone()]), V::Arr(vec![perm_twin(&ab)]), deep.clone(), perm_twin(&deep),
+                     V::Arr(vec![V::Int((1 << 64) - 1)]), V::Arr(vec![V::Float(18446744073709551616.0)]),
+                     V::Obj(vec![("n".into(), V::Int(9007199254740993))]), V::Obj(vec![("n".into(), V::Float(9007199254740992.0))]),
+                     V::Int(1), V::Str("s".into())];
+            twin_universe = true;
+        }
         p
     };
-    let rows: Vec<V> = (0..r.range(0, 6))
+    let rows: Vec<V> = (0..if twin_universe { r.range(2, 9) } else { r.range(0, 6) })
         .map(|_| {
             let mut kvs = vec![];
             for i in 0..n_sel {
@@ -1861,6 +2012,9 @@ pub fn gen_c15(r: &mut Rng, id: usize) -> Group {
         t.contains("\\\"") || t.contains(',') || t.contains("\\n") || t.contains("\\r")
     });
     g.values = rows;
+    if twin_universe {
+        g.labels.push("kind:equal-neighbours".into());
+    }
     g.labels.push(format!("style:{}", if csv { "csv" } else { "text" }));
     g.labels.push(format!("selections:{n_sel}"));
     g
@@ -2057,7 +2211,21 @@ pub fn corrupt(r: &mut Rng, e: &str) -> (String, &'static str) {
                 (format!("(not {e} {e})"), "arity+")
             }
         }
-        _ => (format!("(not)"), "arity-"),
+        _ => {
+            // one argument too few / too many for ANY function of the table (fixed arity, optional arguments, any number of
+            // arguments), under its name or an alias, nested or not
+            use crate::gen_table::FUNCTION_TABLE;
+            let table: Vec<_> = FUNCTION_TABLE.iter().filter(|(n, _, lo, hi)| !["exec", "trigger", "env", "now"].contains(n) && (*lo >= 1 || hi.is_some())).collect();
+            let (name, aliases, lo, hi) = **r.pick(&table);
+            let spelled = if !aliases.is_empty() && r.chance(30) { r.pick(aliases).to_string() } else { name.to_string() };
+            let few = lo >= 1 && (hi.is_none() || r.chance(60));
+            let n = if few { lo - 1 } else { hi.unwrap() + 1 };
+            let fill = ["1", ".k", "\"s\"", ".l", "true", "(size .l)"];
+            let args: Vec<&str> = (0..n).map(|i| fill[(i + r.below(3)) % fill.len()]).collect();
+            let call = if args.is_empty() { format!("({spelled})") } else { format!("({spelled} {})", args.join(" ")) };
+            let call = if r.chance(30) { format!("(default {call} 1)") } else { call };
+            (call, if few { "arity-" } else { "arity+" })
+        }
     }
 }
 
@@ -2387,6 +2555,13 @@ pub fn gen_c20(r: &mut Rng, id: usize) -> Group {
             2 => c.spec.sorts.push(".".into()),
             _ => {}
         }
+        // (also when the options say that few or no rows are wanted: the file named on the command line still does not exist)
+        if r.chance(45) {
+            c.spec.take = Some(r.below(3) as u64);
+            if r.chance(30) {
+                c.spec.skip = r.below(3) as u64;
+            }
+        }
         c.sources.push(Source { name: Some("no-such-input.json".into()), bytes: vec![] });
         c.rerr = Some((0, 0));
         let mut g = Group::new(vec![c]);
@@ -2400,10 +2575,17 @@ pub fn gen_c20(r: &mut Rng, id: usize) -> Group {
     let vals: Vec<V> = (0..n).map(|_| value::gen_value(r, &o, 1)).collect();
     let mut bytes = vec![];
     let mut noise = 0;
+    // the malformed bytes in FRONT of the first value only: they are read whatever `--take` says later
+    let front_only = r.chance(12);
+    if front_only {
+        bytes.extend_from_slice(&garbage_token(r));
+        bytes.push(b' ');
+        noise = 1;
+    }
     for v in &vals {
         bytes.extend_from_slice(value::render(v).as_bytes());
         bytes.push(b'\n');
-        if r.chance(30) {
+        if !front_only && r.chance(30) {
             if r.chance(35) {
                 // a malformed VALUE rather than a stray byte: every syntax error is recoverable under the lenient policies
                 bytes.extend_from_slice(r.ps(&["tru", "[1,]", "{\"a\" 1}", "\"\\ud800\"", "\"\\ud83d\\ude00\"", "\"\\udc00x\"", "\"\\u12g4\"", "-", "{\"a\":}", "[1 2]", "nul", "\"\\x\"", "1e", "\"\\ud83d\\u00e9\""]).as_bytes());
@@ -2415,7 +2597,7 @@ pub fn gen_c20(r: &mut Rng, id: usize) -> Group {
         }
     }
     // malformed bytes with no value around them at all: then the reports are the only thing the run has to write
-    if r.chance(15) {
+    if !front_only && r.chance(15) {
         if r.chance(50) {
             bytes.clear();
         }
@@ -2438,7 +2620,7 @@ pub fn gen_c20(r: &mut Rng, id: usize) -> Group {
     if c.spec.sorts.is_empty() && c.spec.group.is_none() && r.chance(30) {
         // `--take` stops reading, so it is only combined with noise-free input (the oracle expects a report
         // for every noisy input that is read to its end)
-        match if noise == 0 { r.below(3) } else { 0 } {
+        match if noise == 0 || front_only { r.below(3) } else { 0 } {
             0 => c.spec.sorts.push(".".into()),
             1 => c.spec.take = Some(r.range(1, 3) as u64),
             _ => {
